@@ -25,17 +25,42 @@ theorem table_lookup_spec (rows : List LogRow) (name : String) :
     (name ≠ "other" → catOfKernel (buildCatMap rows) name = listedCat rows name) :=
   ⟨getCycles_buildTable rows name, catOfKernel_buildCatMap rows name⟩
 
+/-- **Masked kernel names are looked up under their expanded name.**  Whenever `args.fn_idx` is present —
+for every value, the integer 0 and the string "0" included — a name whose leftmost `[N]` sits after `pre`
+is looked up in the cycle table and the category map as `pre ++ str(fn_idx) ++ post`. -/
+theorem masked_name_lookup (e : UEv) (f : FnIdx) (hf : e.fn = some f) (pre post : List Char)
+    (hname : e.name.toList = pre ++ "[N]".toList ++ post)
+    (hfirst : ∀ k, k < pre.length → "[N]".toList.isPrefixOf (e.name.toList.drop k) = false)
+    (hsuf : endsWithChars "Cmpt Exec".toList post = true) :
+    tableName e = String.ofList (pre ++ f.render.toList ++ post) := by
+  have hr := replaceFirst_spec "[N]".toList f.render.toList (by decide) pre post (by rw [← hname]; exact hfirst)
+  have he : endsWithChars "Cmpt Exec".toList (pre ++ f.render.toList ++ post) = true :=
+    endsWithChars_append _ _ _ hsuf
+  simp only [tableName, tableChars, hf, hname, hr, he, if_true]
+
+/-- without `args.fn_idx` a kernel-slice name is looked up as it is (a literal `[N]` included) -/
+theorem unmasked_name_lookup (e : UEv) (hf : e.fn = none)
+    (hsuf : endsWithChars "Cmpt Exec".toList e.name.toList = true) : tableName e = e.name := by
+  simp only [tableName, tableChars, hf, hsuf, if_true, String.ofList_toList]
+
+example : tableName ⟨"alpha_[N]_mm Cmpt Exec", 0, 0, 8, true, some (.int 0)⟩ = "alpha_0_mm Cmpt Exec" := by decide
+example : tableName ⟨"alpha_[N]_mm Cmpt Exec", 0, 0, 8, true, some (.str "0")⟩ = "alpha_0_mm Cmpt Exec" := by decide
+example : tableName ⟨"alpha_[N]_mm_[N] Cmpt Exec", 0, 0, 8, true, some (.int 12)⟩ = "alpha_12_mm_[N] Cmpt Exec" := by
+  decide
+example : tableName ⟨"alpha_[N]_mm Cmpt Exec", 0, 0, 8, true, none⟩ = "alpha_[N]_mm Cmpt Exec" := by decide
+example : tableName ⟨"plain Cmpt Exec", 0, 0, 8, true, some (.int 0)⟩ = "plain Cmpt Exec" := by decide
+
 theorem util_eq (cfg : Cfg) (hcore : 0 < cfg.core) (rows : List LogRow) (e : UEv)
     (hdur : 1 / 1000000000 < e.dur) :
-    utilOf (mkEnv cfg rows) e = min 1 ((listedCycles rows e.name : Rat) / cfg.core / e.dur) := by
+    utilOf (mkEnv cfg rows) e = min 1 ((listedCycles rows (tableName e) : Rat) / cfg.core / e.dur) := by
   have hd0 : (0 : Rat) < e.dur := lt_trans (by norm_num) hdur
-  have hx : (0 : Rat) ≤ (listedCycles rows e.name : Rat) / cfg.core / e.dur :=
+  have hx : (0 : Rat) ≤ (listedCycles rows (tableName e) : Rat) / cfg.core / e.dur :=
     div_nonneg (div_nonneg (Nat.cast_nonneg _) hcore.le) hd0.le
-  have hi : idealOf (mkEnv cfg rows) e / e.dur = (listedCycles rows e.name : Rat) / cfg.core / e.dur := by
+  have hi : idealOf (mkEnv cfg rows) e / e.dur = (listedCycles rows (tableName e) : Rat) / cfg.core / e.dur := by
     simp only [idealOf, mkEnv, idealDur, getCycles_buildTable, listedCycles]
     field_simp
   simp only [utilOf, utilization, tiny_false_of_gt e.dur hdur, hi, absR_of_nonneg _ hx]
-  by_cases h : 1 < (listedCycles rows e.name : Rat) / cfg.core / e.dur
+  by_cases h : 1 < (listedCycles rows (tableName e) : Rat) / cfg.core / e.dur
   · simp [h, min_eq_left (le_of_lt h)]
   · simp [h, min_eq_right (not_lt.mp h)]
 
@@ -44,16 +69,16 @@ with non-zero cycles, and no `pt_active` at all for kernels listed with 0 or not
 slice duration in µs, above the 1e-9 guard of the code.) -/
 theorem pt_active_formula (cfg : Cfg) (hcore : 0 < cfg.core) (rows : List LogRow) (e : UEv)
     (hdur : 1 / 1000000000 < e.dur) :
-    (listedCycles rows e.name ≠ 0 →
-      (annotate (mkEnv cfg rows) e).pt = some (min 1 ((listedCycles rows e.name : Rat) / cfg.core / e.dur))) ∧
-    (listedCycles rows e.name = 0 → (annotate (mkEnv cfg rows) e).pt = none) := by
+    (listedCycles rows (tableName e) ≠ 0 →
+      (annotate (mkEnv cfg rows) e).pt = some (min 1 ((listedCycles rows (tableName e) : Rat) / cfg.core / e.dur))) ∧
+    (listedCycles rows (tableName e) = 0 → (annotate (mkEnv cfg rows) e).pt = none) := by
   have hd0 : (0 : Rat) < e.dur := lt_trans (by norm_num) hdur
   have hu := util_eq cfg hcore rows e hdur
   constructor
   · intro hc
-    have hc' : (0 : Rat) < (listedCycles rows e.name : Rat) := by exact_mod_cast Nat.pos_of_ne_zero hc
-    have hx : (0 : Rat) < (listedCycles rows e.name : Rat) / cfg.core / e.dur := div_pos (div_pos hc' hcore) hd0
-    have : (0 : Rat) < min 1 ((listedCycles rows e.name : Rat) / cfg.core / e.dur) := lt_min one_pos hx
+    have hc' : (0 : Rat) < (listedCycles rows (tableName e) : Rat) := by exact_mod_cast Nat.pos_of_ne_zero hc
+    have hx : (0 : Rat) < (listedCycles rows (tableName e) : Rat) / cfg.core / e.dur := div_pos (div_pos hc' hcore) hd0
+    have : (0 : Rat) < min 1 ((listedCycles rows (tableName e) : Rat) / cfg.core / e.dur) := lt_min one_pos hx
     simp [annotate, ptActive, hu, this]
   · intro hc
     simp [annotate, ptActive, hu, hc]
@@ -71,10 +96,10 @@ cycles gets the `PT Active` counter `100 · pt_active` at its start and `0` at i
 or not listed gets no counter at all. -/
 theorem counter_pair (cfg : Cfg) (hcore : 0 < cfg.core) (hstats : cfg.stats = true) (rows : List LogRow)
     (e : UEv) (hdur : 1 / 1000000000 < e.dur) :
-    (listedCycles rows e.name = 0 → (annotate (mkEnv cfg rows) e).ctrs = []) ∧
-    (1 / 1000000000 < min 1 ((listedCycles rows e.name : Rat) / cfg.core / e.dur) * 100 →
+    (listedCycles rows (tableName e) = 0 → (annotate (mkEnv cfg rows) e).ctrs = []) ∧
+    (1 / 1000000000 < min 1 ((listedCycles rows (tableName e) : Rat) / cfg.core / e.dur) * 100 →
       (annotate (mkEnv cfg rows) e).ctrs =
-        [(e.ts, min 1 ((listedCycles rows e.name : Rat) / cfg.core / e.dur) * 100), (e.ts + e.dur, 0)]) := by
+        [(e.ts, min 1 ((listedCycles rows (tableName e) : Rat) / cfg.core / e.dur) * 100), (e.ts + e.dur, 0)]) := by
   have hu := util_eq cfg hcore rows e hdur
   have hs : (mkEnv cfg rows).cfg.stats = true := hstats
   constructor
@@ -82,14 +107,14 @@ theorem counter_pair (cfg : Cfg) (hcore : 0 < cfg.core) (hstats : cfg.stats = tr
     have h0 : utilOf (mkEnv cfg rows) e = 0 := by simp [hu, hc]
     simp [annotate, counters, h0, hs, tiny, absR]
   · intro hgt
-    have hpos : (0 : Rat) < min 1 ((listedCycles rows e.name : Rat) / cfg.core / e.dur) * 100 :=
+    have hpos : (0 : Rat) < min 1 ((listedCycles rows (tableName e) : Rat) / cfg.core / e.dur) * 100 :=
       lt_trans (by norm_num) hgt
     simp [annotate, counters, hu, hs, tiny_false_of_gt _ hgt, hpos]
 
 /-- without the stats stage (`-t`) a kernel with zero / unknown ideal cycles still gets a zero-valued
 start counter: the "gets neither" clause depends on `calculate_stats` being registered -/
 theorem no_stats_zero_counter (cfg : Cfg) (hcore : 0 < cfg.core) (hstats : cfg.stats = false)
-    (rows : List LogRow) (e : UEv) (hdur : 1 / 1000000000 < e.dur) (hc : listedCycles rows e.name = 0) :
+    (rows : List LogRow) (e : UEv) (hdur : 1 / 1000000000 < e.dur) (hc : listedCycles rows (tableName e) = 0) :
     (annotate (mkEnv cfg rows) e).ctrs = [(e.ts, 0)] := by
   have hu := util_eq cfg hcore rows e hdur
   have hs : (mkEnv cfg rows).cfg.stats = false := hstats
@@ -169,7 +194,7 @@ def NoTotalCategory (rows : List LogRow) : Prop := ∀ r ∈ rows, handleCategor
 
 theorem catOf_ne_total (cfg : Cfg) (rows : List LogRow) (h : NoTotalCategory rows) (e : UEv) :
     catOf (mkEnv cfg rows) e ≠ "Total" := by
-  rcases catOfKernel_cases rows e.name with h1 | ⟨r, hr, h1⟩
+  rcases catOfKernel_cases rows (tableName e) with h1 | ⟨r, hr, h1⟩
   · simp only [catOf, mkEnv, h1]; decide
   · simp only [catOf, mkEnv, h1]; exact h r hr
 
@@ -190,9 +215,9 @@ theorem total_is_sum_of_categories (cfg : Cfg) (rows : List LogRow) (evs : List 
 /-- **The remaining hypothesis is necessary**: a row whose category is literally `Total`
 (`plain-opCatTotal 1024`) makes its slice count twice in the Total row while no category row shows it. -/
 theorem total_double_counts_literal_total_category :
-    (accAt (finalTab ⟨1024, true⟩ [⟨"plain", .opcat "Total", 1024⟩] [⟨"plain Cmpt Exec", 0, 0, 8, true⟩] 0) "Total").calls = 2 ∧
-    (slicesOf [⟨"plain Cmpt Exec", 0, 0, 8, true⟩] 0).length = 1 ∧
-    (((finalTab ⟨1024, true⟩ [⟨"plain", .opcat "Total", 1024⟩] [⟨"plain Cmpt Exec", 0, 0, 8, true⟩] 0).filter
+    (accAt (finalTab ⟨1024, true⟩ [⟨"plain", .opcat "Total", 1024⟩] [⟨"plain Cmpt Exec", 0, 0, 8, true, none⟩] 0) "Total").calls = 2 ∧
+    (slicesOf [⟨"plain Cmpt Exec", 0, 0, 8, true, none⟩] 0).length = 1 ∧
+    (((finalTab ⟨1024, true⟩ [⟨"plain", .opcat "Total", 1024⟩] [⟨"plain Cmpt Exec", 0, 0, 8, true, none⟩] 0).filter
       (fun q => q.1 ≠ "Total")).map (fun q => q.2.calls)).sum = 0 := by
   decide +kernel
 
@@ -200,8 +225,8 @@ theorem total_double_counts_literal_total_category :
 behaviour of /repo 3b111fa) -/
 theorem uncategorised_row_counted_once :
     NoTotalCategory [⟨"plain", .none, 1024⟩] ∧
-    (accAt (finalTab ⟨1024, true⟩ [⟨"plain", .none, 1024⟩] [⟨"plain Cmpt Exec", 0, 0, 8, true⟩] 0) "Total").calls = 1 ∧
-    (accAt (finalTab ⟨1024, true⟩ [⟨"plain", .none, 1024⟩] [⟨"plain Cmpt Exec", 0, 0, 8, true⟩] 0) "NotAvailable").calls = 1 := by
+    (accAt (finalTab ⟨1024, true⟩ [⟨"plain", .none, 1024⟩] [⟨"plain Cmpt Exec", 0, 0, 8, true, none⟩] 0) "Total").calls = 1 ∧
+    (accAt (finalTab ⟨1024, true⟩ [⟨"plain", .none, 1024⟩] [⟨"plain Cmpt Exec", 0, 0, 8, true, none⟩] 0) "NotAvailable").calls = 1 := by
   refine ⟨?_, by decide +kernel, by decide +kernel⟩
   intro r hr
   simp at hr
@@ -229,9 +254,9 @@ theorem asOld_spec (r : LogRow) :
 /-- **Regression sentinel**: with the OLD `_handle_category` the unrestricted statement was false — the
 row `plain 1024` (no suffix) made one slice count twice in the Total row. -/
 theorem old_handle_category_double_counts :
-    (accAt (finalTab ⟨1024, true⟩ ([⟨"plain", .none, 1024⟩].map asOld) [⟨"plain Cmpt Exec", 0, 0, 8, true⟩] 0)
+    (accAt (finalTab ⟨1024, true⟩ ([⟨"plain", .none, 1024⟩].map asOld) [⟨"plain Cmpt Exec", 0, 0, 8, true, none⟩] 0)
       "Total").calls = 2 ∧
-    (slicesOf [⟨"plain Cmpt Exec", 0, 0, 8, true⟩] 0).length = 1 := by
+    (slicesOf [⟨"plain Cmpt Exec", 0, 0, 8, true, none⟩] 0).length = 1 := by
   decide +kernel
 
 theorem nodup_finalTab (cfg : Cfg) (rows : List LogRow) (evs : List UEv) (p : Int) :
@@ -319,7 +344,7 @@ theorem ratios (cfg : Cfg) (rows : List LogRow) (evs : List UEv) (p : Int)
 theorem ideal_cycles_exact (cfg : Cfg) (hcore : 0 < cfg.core) (rows : List LogRow) (evs : List UEv) (p : Int)
     (r : CRow) (hr : r ∈ rowsOfTab cfg.core p (finalTab cfg rows evs p)) (hc : r.cat ≠ "Total") :
     r.idealCyc = ((((slicesOf evs p).filter (fun e => catOf (mkEnv cfg rows) e = r.cat)).map
-      (fun e => listedCycles rows e.name)).sum : Nat) := by
+      (fun e => listedCycles rows (tableName e))).sum : Nat) := by
   have hperm := rowsOfTab_perm cfg.core p (finalTab cfg rows evs p)
   have hnd := nodup_finalTab cfg rows evs p
   obtain ⟨q, hq, rfl⟩ := List.mem_map.mp (hperm.mem_iff.mp hr)
@@ -329,11 +354,11 @@ theorem ideal_cycles_exact (cfg : Cfg) (hcore : 0 < cfg.core) (rows : List LogRo
   obtain ⟨_, _, h3⟩ := each_kernel_counted_once cfg rows evs p q.1 hc
   rw [hq2] at h3
   have hk : (0 : Rat) < 1 / cfg.core := one_div_pos.mpr hcore
-  have hid : ∀ e, idealOf (mkEnv cfg rows) e = (listedCycles rows e.name : Rat) * (1 / cfg.core) := by
+  have hid : ∀ e, idealOf (mkEnv cfg rows) e = (listedCycles rows (tableName e) : Rat) * (1 / cfg.core) := by
     intro e
     simp [idealOf, mkEnv, idealDur, getCycles_buildTable, listedCycles]
   have hsum : q.2.ideal = ((((slicesOf evs p).filter (fun e => catOf (mkEnv cfg rows) e = q.1)).map
-      (fun e => listedCycles rows e.name)).sum : Nat) * (1 / cfg.core) := by
+      (fun e => listedCycles rows (tableName e))).sum : Nat) * (1 / cfg.core) := by
     rw [h3, ← sum_map_cast_mul]
     congr 1
     apply List.map_congr_left
@@ -365,9 +390,9 @@ def exRows : List LogRow :=
    ⟨"gelu", .na, 2048⟩, ⟨"mm_0", .opcat "Other", 7⟩, ⟨"plain", .none, 64⟩]
 
 def exEvs : List UEv :=
-  [⟨"mm_0 Cmpt Exec", 0, 113, 20, true⟩, ⟨"mm_1 Cmpt Exec", 0, 148, 20, true⟩, ⟨"conv Cmpt Exec", 0, 183, 20, true⟩,
-   ⟨"gelu Cmpt Exec", 0, 218, 8, true⟩, ⟨"unk_7 Cmpt Exec", 0, 264, 8, true⟩, ⟨"mm_0 Cmpt Prep", 0, 100, 5, true⟩,
-   ⟨"mm_0 Cmpt Exec", 1, 50, 5, true⟩]
+  [⟨"mm_0 Cmpt Exec", 0, 113, 20, true, none⟩, ⟨"mm_1 Cmpt Exec", 0, 148, 20, true, none⟩, ⟨"conv Cmpt Exec", 0, 183, 20, true, none⟩,
+   ⟨"gelu Cmpt Exec", 0, 218, 8, true, none⟩, ⟨"unk_7 Cmpt Exec", 0, 264, 8, true, none⟩, ⟨"mm_0 Cmpt Prep", 0, 100, 5, true, none⟩,
+   ⟨"mm_0 Cmpt Exec", 1, 50, 5, true, none⟩]
 
 example : listedCycles exRows "mm_0 Cmpt Exec" = 10240 ∧ listedCycles exRows "conv Cmpt Exec" = 0 ∧
     listedCycles exRows "unk_7 Cmpt Exec" = 0 := by decide
@@ -377,9 +402,9 @@ example : NoTotalCategory exRows := by
   simp [exRows] at hr
   rcases hr with rfl | rfl | rfl | rfl | rfl | rfl <;> decide
 example : NoTotalCategory [] := by intro r hr; simp at hr
-example : (annotate (mkEnv ⟨1024, true⟩ exRows) ⟨"mm_0 Cmpt Exec", 0, 113, 20, true⟩).pt = some (1 / 2) := by
+example : (annotate (mkEnv ⟨1024, true⟩ exRows) ⟨"mm_0 Cmpt Exec", 0, 113, 20, true, none⟩).pt = some (1 / 2) := by
   decide +kernel
-example : (annotate (mkEnv ⟨1024, true⟩ exRows) ⟨"mm_0 Cmpt Exec", 1, 50, 5, true⟩).pt = some 1 := by
+example : (annotate (mkEnv ⟨1024, true⟩ exRows) ⟨"mm_0 Cmpt Exec", 1, 50, 5, true, none⟩).pt = some 1 := by
   decide +kernel
 example : (1 : Rat) / 1000000000 < min 1 ((10240 : Rat) / 1024 / 20) * 100 := by norm_num
 
